@@ -251,15 +251,27 @@ class PiecewiseEstimator(BaseEstimator):
         )
 
         if hasattr(self, "random_state") and self.random_state is not None:
+            # One generator per bucket, seeded here in bucket order: the tasks
+            # run in threads and must not draw from a shared generator,
+            # otherwise the result depends on the thread schedule.
             rnd = numpy.random.RandomState(self.random_state)
+            seeds = rnd.randint(0, 2**31 - 1, size=len(estimators))
+            rnds = [numpy.random.RandomState(s) for s in seeds]
         else:
-            rnd = None
+            rnds = [None for _ in estimators]
 
         self.estimators_ = Parallel(
             n_jobs=self.n_jobs, verbose=verbose, prefer="threads"
         )(
             delayed(_fit_piecewise_estimator)(
-                i, estimators[i], X, y, sample_weight, association, nb_classes, rnd
+                i,
+                estimators[i],
+                X,
+                y,
+                sample_weight,
+                association,
+                nb_classes,
+                rnds[i],
             )
             for i in loop
         )
